@@ -12,7 +12,7 @@ from .c04 import model
 from .indexfx import index_effects
 
 PROP = "C12"
-FLOORS = {"C12.R1": 20, "C12.R2": 20, "C12.R3": 6, "C12.R4": 1, "C12.R5": 20}
+FLOORS = {"C12.R1": 20, "C12.R2": 20, "C12.R3": 6, "C12.R4": 1, "C12.R5": 20, "C12.R6": 1}
 META = {
     "explanation": "Every concrete reference/expression class resolves __reduce__ to a definition returning (type(self), (fields...)) "
                    "whose i-th element is the declared field that the class's __cinit__ derives from its i-th parameter, on every "
@@ -282,7 +282,77 @@ def _stored_objects(col, rule="C12.R5"):
     col.count("manager_methods_scanned", n)
 
 
+STORING_HOOKS = ("__setitem__", "__setattr__", "update", "setdefault", "__ior__")
+PICKLE_HOOKS = ("__getstate__", "__setstate__", "__reduce__", "__reduce_ex__", "__getnewargs__", "__getnewargs_ex__", "__copy__", "__deepcopy__")
+
+
+def _containers_store_verbatim(col, rule="C12.R4"):
+    """a default container is rebuilt item by item (`__reduce__`'s items slot, dict's own protocol): a storing hook that rewrites what it is
+    given (wraps dicts, copies, converts) makes the restored contents differ from the pickled ones -- aliasing is lost"""
+    repo = col.repo
+    mgr = repo.cls("Manager")
+    defaults = set()
+    for name, fn in mgr.methods.items():
+        params = set(A.params(fn))
+        for n in A.walk(fn):
+            if isinstance(n, ast.Assign) and isinstance(n.value, ast.Call) and not n.value.args and not n.value.keywords:
+                cn = A.dotted(n.value.func)
+                if cn and cn.split(".")[-1] in repo.classes and any(isinstance(t, ast.Name) and t.id in params for t in n.targets):
+                    defaults.add(cn.split(".")[-1])
+    for cn in sorted(defaults):
+        c = repo.classes[cn]
+        hooks = [h for h in STORING_HOOKS if h in c.methods]
+        col.add(rule, f"{cn}#stores-what-it-is-given", not hooks, c.module.loc(c.methods[hooks[0]]) if hooks else c.module.loc(c.node),
+                "the default container has no storing hook of its own: items go in as they are, at construction, assignment and unpickling alike",
+                str(hooks))
+
+
+def _tasks_pickle_whole(col, rule="C12.R3"):
+    """tasks are pickled through their __dict__: a task class with pickling hooks of its own that leave part of the state out (and
+    recompute it on load) restores a manager that reacts differently"""
+    repo = col.repo
+
+    def is_task(cn, depth=4):
+        c = repo.classes.get(cn)
+        return c is not None and (cn == "Task" or (depth > 0 and any(is_task(b, depth - 1) for b in c.base_names)))
+    n = 0
+    for cn, c in sorted(repo.classes.items()):
+        if not c.module.name.startswith("xdeps") or not is_task(cn):
+            continue
+        n += 1
+        hooks = [h for h in PICKLE_HOOKS if h in c.methods]
+        bad = []
+        for h in hooks:
+            fn = c.methods[h]
+            if h == "__getstate__":
+                rets = [r for r in A.walk(fn) if isinstance(r, ast.Return)]
+                whole = rets and all(A.src(r.value) in ("self.__dict__", "self.__dict__.copy()", "dict(self.__dict__)") for r in rets)
+                drops = [x for x in A.walk(fn) if (isinstance(x, ast.Call) and isinstance(x.func, ast.Attribute) and x.func.attr in ("pop", "popitem", "clear"))
+                         or isinstance(x, ast.Delete)]
+                if not whole or drops:
+                    bad.append(f"{h} leaves part of the state out")
+            elif h == "__setstate__":
+                calls = [x for x in A.walk(fn) if isinstance(x, ast.Call) and isinstance(x.func, ast.Attribute) and isinstance(x.func.value, ast.Name)
+                         and x.func.value.id == "self"]
+                if calls:
+                    bad.append(f"{h} recomputes state ({A.src(calls[0])[:40]})")
+            else:
+                bad.append(f"{h} defined")
+        col.add(rule, f"{cn}#pickled-whole", not bad, c.module.loc(c.methods[hooks[0]]) if hooks else c.module.loc(c.node),
+                "a task's state travels whole (no pickling hook drops or recomputes part of it)", "; ".join(bad))
+    col.count("task_classes", n)
+
+
 def check(col: Collector):
+    with col.rule():
+        _containers_store_verbatim(col)
+    with col.rule():
+        _tasks_pickle_whole(col)
+    from . import c04
+    from .common import shared
+    with col.rule():
+        shared(col, "C12.R6", [c04._calls], select=lambda o: "__cinit__#" in o.construct,
+               why="a restored call reference is rebuilt by __cinit__ from the pickled fields: it must store them as given")
     with col.rule():
         _stored_objects(col)
     with col.rule():
